@@ -83,7 +83,8 @@ def gen_ops(rng, nops):
         elif r < 0.73:
             ops.append({"op": "copy", "h": h, "g": g, "to": rng.randrange(NG), "how": rng.choice(["copy", "copy.copy"])})
         elif r < 0.80:
-            mode = rng.choice(["same", "equal-copy", "reordered", "reordered", "one-different", "all-different", "units-exact", "units-different", "incompatible", "extra-key", "asis"])
+            mode = rng.choice(["same", "equal-copy", "reordered", "reordered", "one-different", "all-different", "units-exact", "units-different", "incompatible", "extra-key", "asis",
+                               "dtype-other"])
             ops.append({"op": "eq", "h": h, "g": g, "g2": rng.randrange(NG), "mode": mode, "pick": rng.randrange(8)})
         elif r < 0.86:
             ops.append({"op": "ds_set", "h": h, "d": rng.randrange(ND), "name": rng.choice(["mesh", "part", "x"]),
@@ -120,12 +121,12 @@ def describe(case):
 def build(val):
     import osyris
 
-    dt = {"f8": float, "i8": np.int64}[val.get("dtype", "f8")]
+    dt = {"f8": float, "i8": np.int64, "f4": np.float32, "i4": np.int32}[val.get("dtype", "f8")]
     if val["kind"] == "arr":
         return osyris.Array(values=np.array(val["vals"][0], dtype=dt), unit=val["unit"])
     if val["kind"] == "arr2":
-        return osyris.Array(values=np.array(val["vals"], dtype=float).T.copy(), unit=val["unit"])
-    comps = [np.array(v, dtype=float) for v in val["vals"]]
+        return osyris.Array(values=np.array(val["vals"], dtype=dt if dt in (np.float32,) else float).T.copy(), unit=val["unit"])
+    comps = [np.array(v, dtype=dt if dt in (np.float32,) else float) for v in val["vals"]]
     return osyris.Vector(*comps, unit=val["unit"])
 
 
@@ -377,6 +378,10 @@ def execute(case, stats):
                         pass
                     elif mode == "equal-copy":
                         pass
+                    elif mode == "dtype-other":
+                        # the same numbers stored with another width (float32 for float64, int32 for int64): equal by content
+                        specs[pk]["dtype"] = {"f8": "f4", "i8": "i4"}.get(specs[pk].get("dtype", "f8"), "f4")
+                        stats.inc("probe.eq_same_content_other_dtype")
                     elif mode == "one-different":
                         specs[pk]["vals"][0][0] += 1.0
                     elif mode == "all-different":
